@@ -5,6 +5,7 @@ import (
 	"testing"
 	"time"
 
+	"github.com/iotaledger/hive.go/runtime/options"
 	"github.com/iotaledger/hive.go/runtime/timed"
 	"verifsim/simrt"
 )
@@ -112,7 +113,71 @@ func queue(s *simrt.Sim) {
 		}
 	}
 	nadd := 1 + s.Choose(2)
-	addersLeft = nadd
+	// monotone leg of the size bound: one adder, strictly increasing due times, so that the element the bound drops is
+	// the newcomer under any reading of "the element furthest in the future"; handles (also of dropped elements) are
+	// cancelled in between, and the content of the queue is known exactly
+	monotone := maxSize > 0 && s.Choose(2) == 1
+	var model map[int]bool
+	if monotone {
+		nadd = 0
+		addersLeft = 1
+		model = map[int]bool{}
+		n := 2 + s.Choose(simrt.Bound(5, 7))
+		base := delays[s.Choose(len(delays))]
+		cancelOf := make([]int, n) // after the i-th Add cancel the handle of element cancelOf[i] (-1: none)
+		for i := range cancelOf {
+			cancelOf[i] = -1
+			if s.Choose(2) == 1 {
+				cancelOf[i] = s.Choose(i + 1)
+			}
+		}
+		s.Go("adder0", func() {
+			for i := 0; i < n; i++ {
+				e := &elem{id: len(elems) + 1}
+				elems = append(elems, e)
+				e.due = time.Since(start) + base + time.Duration(i)*10*time.Millisecond
+				if i > 0 && e.due <= elems[i-1].due {
+					e.due = elems[i-1].due + time.Millisecond
+				}
+				h := q.Add(e.id, start.Add(e.due))
+				e.addRet = s.Tick()
+				e.added = h != nil
+				e.handle = h
+				if h == nil {
+					s.Fail("model", "queue:add-refused", "Add %d refused before any Shutdown", e.id)
+					break
+				}
+				if len(model) < maxSize {
+					model[e.id] = true
+				} else {
+					s.Probe("size-bound-drops-newcomer")
+				}
+				s.Logf("Add %d due=%v; expected content %v", e.id, e.due, model)
+				if sz := q.Size(); sz != len(model) {
+					s.Fail("model", "queue:size-after-add", "Size() = %d after adding element %d, expected %d (max size %d)", sz, e.id, len(model), maxSize)
+				}
+				if c := cancelOf[i]; c >= 0 && elems[c].cancelInv == 0 {
+					ce := elems[c]
+					if !model[ce.id] {
+						s.Probe("cancel-of-dropped-element")
+					}
+					ce.cancelInv = s.Tick()
+					ce.handle.Cancel()
+					ce.cancelRet = s.Tick()
+					ce.cancelAt = time.Since(start)
+					delete(model, ce.id)
+					s.Logf("Cancel %d; expected content %v", ce.id, model)
+					if sz := q.Size(); sz != len(model) {
+						s.Fail("model", "queue:size-after-cancel", "Size() = %d after cancelling element %d, expected %d", sz, ce.id, len(model))
+					}
+				}
+			}
+			addersLeft--
+			spawnPollers()
+		})
+	} else {
+		addersLeft = nadd
+	}
 	for a := 0; a < nadd; a++ {
 		n := 1 + s.Choose(3)
 		type spec struct {
@@ -224,7 +289,16 @@ func queue(s *simrt.Sim) {
 			s.Fail("eventually-once", "queue:shutdown-"+flagName(flags), "element %d (added before Shutdown was invoked, never cancelled) was never delivered", e.id)
 		}
 	}
-	if maxSize > 0 && flags&timed.CancelPendingElements == 0 && pollQuota == 0 {
+	if monotone {
+		for _, e := range elems {
+			switch {
+			case e.delivered > 0 && !model[e.id]:
+				s.Fail("model", "queue:delivered-not-in-model", "element %d was delivered although it was cancelled or dropped by the size bound (expected content %v)", e.id, model)
+			case e.delivered == 0 && model[e.id] && flags&timed.CancelPendingElements == 0 && pollQuota == 0:
+				s.Fail("eventually-once", "queue:size-bound-kept-element-lost", "element %d was neither cancelled nor dropped by the size bound (expected content %v) and was never delivered", e.id, model)
+			}
+		}
+	} else if maxSize > 0 && flags&timed.CancelPendingElements == 0 && pollQuota == 0 {
 		want := eligible
 		if want > maxSize {
 			want = maxSize
@@ -376,7 +450,17 @@ type tcancel struct {
 
 func taskExec(s *simrt.Sim) {
 	workers := 1 + s.Choose(2)
-	te := timed.NewTaskExecutor[int](workers)
+	nIdents := 2 + s.Choose(2)
+	// a size bound of at least the number of identifiers can never legitimately drop anything: at most one task per
+	// identifier is pending
+	var teOpts []options.Option[timed.Executor]
+	maxQueue := 0
+	if s.Choose(2) == 1 {
+		maxQueue = nIdents + s.Choose(2)
+		teOpts = append(teOpts, timed.WithMaxQueueSize(maxQueue))
+	}
+	te := timed.NewTaskExecutor[int](workers, teOpts...)
+	s.Logf("config workers=%d idents=%d maxQueue=%d", workers, nIdents, maxQueue)
 	start := time.Now()
 	var tasks []*ttask
 	var cancels []*tcancel
@@ -393,7 +477,7 @@ func taskExec(s *simrt.Sim) {
 		}
 		specs := make([]spec, n)
 		for i := range specs {
-			specs[i] = spec{kind: s.Choose(3), ident: 1 + s.Choose(2), d: simrt.Knob(s, 0, time.Millisecond, 10*time.Millisecond), work: s.Choose(3)}
+			specs[i] = spec{kind: s.Choose(3), ident: 1 + s.Choose(nIdents), d: simrt.Knob(s, 0, time.Millisecond, 10*time.Millisecond), work: s.Choose(3)}
 			if s.Choose(3) == 2 {
 				specs[i].sleep = simrt.Knob(s, time.Millisecond, 5*time.Millisecond, 20*time.Millisecond)
 			}
